@@ -40,7 +40,8 @@ def _e1_parts(prop):
     return [
         {"name": "sched", "pkg": "e1_store", "race": False, "shards": 16, "env": {"VERIF_PROP": prop}},
         {"name": "stress", "pkg": "e1_store", "race": True, "shards": 16, "env": {"VERIF_PROP": prop}},
-    ] + ([{"name": "lru", "pkg": "e1_store", "race": False, "shards": 16, "env": {"VERIF_PROP": prop}}] if prop == "C03" else [])
+    ] + ([{"name": "lru", "pkg": "e1_store", "race": False, "shards": 16, "env": {"VERIF_PROP": prop}},
+          {"name": "torexpire", "pkg": "c03_torexpire", "netns": "isolated", "race": False, "shards": 16}] if prop == "C03" else [])
 
 CHECKS["C01"] = {
     "level": "exploration",
